@@ -35,6 +35,9 @@ def rand_instance(rng, n_units=None, K=None, C=None, chain=False, big=False):
         dist = [rng.choice([1, 2, 3]) for _ in range(rows)]
     else:
         dist = rng.sample(range(1, 20), rows)
+        if rng.random() < 0.3:
+            # distinct distances closer together than any relative tolerance a comparison might use (and than binary32 spacing)
+            dist = [134217728 + d for d in dist] if rng.random() < 0.5 else [1 + d / 2 ** 30 for d in dist]
     return {"n": n, "rows": rs, "labels": labels, "dist": dist, "K": K or (rng.randint(1, 3) if big else rng.randint(1, 2)), "C": C}
 
 
@@ -47,6 +50,18 @@ def gen(rng, tier):
     for K, C in ((2, 2), (1, 2)):
         seq = [rand_instance(rng, n_units=n, K=K, C=C) for n in (3, 5, 4)]
         cases.append({"multi": seq})
+    # HISTORIES on one Provenance object: an oracle is built, two different rows are swapped IN PLACE (the array keeps its shape),
+    # another oracle is built from the same object with the same tally type object -- it must count for the EDITED provenance
+    for _ in range({"quick": 3, "search": 5, "thorough": 20}[tier]):
+        while True:
+            i1 = rand_instance(rng, n_units=rng.choice([3, 4]), K=rng.randint(1, 2), C=2)
+            pairs = [(a, b) for a in range(len(i1["rows"])) for b in range(a) if i1["rows"][a] != i1["rows"][b]]
+            if pairs:
+                break
+        a, b = rng.choice(pairs)
+        rows2 = list(i1["rows"])
+        rows2[a], rows2[b] = rows2[b], rows2[a]
+        cases.append({"multi": [i1, dict(i1, rows=rows2)], "history": True})
     cases.append(rand_instance(rng, n_units=1, K=1, C=1, chain=True))
     return cases
 
@@ -97,11 +112,22 @@ def compile_hints(prov):
             "degrees": [int(x) for x in degrees]}
 
 
-def run_one(inst):
+def run_one(inst, ctx=None):
     import numpy as np
     from datascope.importance.oracle import ShapleyOracle, ATally, compile as compile_prov
-    prov = make_prov(inst)
-    atype = ATally[inst["n"] - 1, inst["K"], inst["C"]]
+    if ctx is not None and "prov" in ctx:
+        # second step of a history: the SAME provenance object is edited in place and a new oracle is built from it with the SAME
+        # tally type object
+        from datascope.utility.provenance import Conjunction
+        prov, atype = ctx["prov"], ctx["atype"]
+        for r, row in enumerate(inst["rows"]):
+            if row != ctx["rows"][r]:
+                prov[r] = Conjunction(*[prov._units[u] == 1 for u in row])
+    else:
+        prov = make_prov(inst)
+        atype = ATally[inst["n"] - 1, inst["K"], inst["C"]]
+    if ctx is not None:
+        ctx.update({"prov": prov, "atype": atype, "rows": [list(r) for r in inst["rows"]]})
     t = {"kind": "tally", "n": inst["n"] - 1, "k": inst["K"], "c": inst["C"]}
     add, locations = compile_prov(prov, atype)
     dumped = c10.dump(add, t)
@@ -121,7 +147,8 @@ def run_one(inst):
 
 def run_impl(c):
     if "multi" in c:
-        return {"multi": [run_one(i) for i in c["multi"]]}
+        ctx = {} if c.get("history") else None
+        return {"multi": [run_one(i, ctx) for i in c["multi"]]}
     return run_one(c)
 
 
@@ -175,6 +202,8 @@ def distribution(cases, outs):
     return {"units": dict(sorted(Counter(i["n"] for i in flat).items())), "rows": dict(sorted(Counter(len(i["rows"]) for i in flat).items())),
             "K": dict(Counter(i["K"] for i in flat)), "classes": dict(Counter(i["C"] for i in flat)),
             "tied_distances": sum(1 for i in flat if len(set(i["dist"])) < len(i["dist"])),
+            "nearly_equal_distinct_distances": sum(1 for i in flat if len(set(i["dist"])) == len(i["dist"]) and (max(i["dist"]) > 1e6 or max(i["dist"]) < 1.1)),
+            "histories_on_one_provenance_object": sum(1 for c in cases if c.get("history")),
             "multi_unit_rows": sum(1 for i in flat if any(len(r) > 1 for r in i["rows"])),
             "units_owning_no_row": sum(1 for i in flat if set(range(i["n"])) - set(u for r in i["rows"] for u in r)),
             "compile_model_compared_structurally": sum(1 for o in outs if isinstance(o, dict) and "exc" not in o
